@@ -203,7 +203,8 @@ def run_config(ctx, res, m, protocol, diskcls, thorough, coqcases, stats):
         is_stream = isinstance(v, Stream)
         key = 'k%d' % vi
         case = {'check': 'roundtrip', 'disk': diskname, 'min_file_size': m, 'protocol': protocol, 'value': short(v),
-                'value_pickle_hex': None if is_stream else pickle_hex(v), 'stream_len': len(v.data) if is_stream else None}
+                'value_pickle_hex': None if is_stream else pickle_hex(v), 'stream_len': len(v.data) if is_stream else None,
+                'stream_osfile': bool(is_stream and v.osfile), 'stream_burst': v.burst if is_stream else 0}
 
         def put(c, k):
             if is_stream:
@@ -1839,7 +1840,7 @@ def replay(payload):
         c = diskcache.Cache(d, disk=disk, disk_min_file_size=case.get('min_file_size', 0), disk_pickle_protocol=case.get('protocol', 5))
         if case.get('stream_len') is not None:
             data = bytes((i * 7) % 256 for i in range(case['stream_len']))
-            c.set('k', io.BytesIO(data), read=True)
+            c.set('k', Stream(data, burst=case.get('stream_burst', 0), osfile=case.get('stream_osfile', False)).open(), read=True)
             want = data
         else:
             want = unpickle_hex(case['value_pickle_hex'])
